@@ -922,6 +922,86 @@ func c06Linkage(x *mc.Exec) {
 	}
 }
 
+// c06AfterRemove: the declared kind is the one of the payload's type in the schema as it is NOW:
+// three types declare an attribute n of different widths; after every sequence of up to three
+// RemoveType / AddType steps, payloads of each remaining type are read: in-range values stored with
+// the type's own kind, out-of-range ones refused.
+func c06AfterRemove(x *mc.Exec) {
+	soft := x.Bool("soft")
+	kinds := map[string]Kind{"small": {j.AttrTypeInt8, false}, "mid": {j.AttrTypeInt16, false}, "wide": {j.AttrTypeInt32, false}}
+	mk := func(name string) j.Type {
+		return TypeD{Name: name, Attrs: []AttrD{{"n", kinds[name]}}}.Type(soft)
+	}
+	s := &j.Schema{}
+	present := map[string]bool{}
+	desc := ""
+	for _, n := range []string{"small", "mid", "wide"} {
+		_ = s.AddType(mk(n))
+		present[n] = true
+	}
+	steps := []string{"Remove(small)", "Remove(mid)", "Remove(wide)", "Add(small)", "Add(mid)", "lookup of every name"}
+	for i := 0; i < 3; i++ {
+		k := x.Choose(len(steps)+1, "step")
+		if k == len(steps) {
+			break
+		}
+		desc += steps[k] + "; "
+		switch k {
+		case 0, 1, 2:
+			n := []string{"small", "mid", "wide"}[k]
+			s.RemoveType(n)
+			present[n] = false
+		case 3, 4:
+			n := []string{"small", "mid"}[k-3]
+			if s.AddType(mk(n)) == nil {
+				present[n] = true
+			}
+		case 5:
+			for _, n := range []string{"small", "mid", "wide", "none"} {
+				_, _ = s.HasType(n), s.GetType(n)
+			}
+		}
+	}
+	x.Render(desc)
+	x.R.Mark("nontrivial", mc.Hash(desc, soft))
+	want := map[string]any{"small": int8(100), "mid": int16(100), "wide": int32(100)}
+	limit := map[string]string{"small": "300", "mid": "70000", "wide": "3000000000"}
+	for _, n := range []string{"small", "mid", "wide"} {
+		for _, via := range []string{"UnmarshalResource", "UnmarshalCollection"} {
+			read := func(lit string) (j.Resource, error) {
+				pl := fmt.Sprintf(`{"type":%q,"id":"r","attributes":{"n":%s}}`, n, lit)
+				if via == "UnmarshalResource" {
+					return j.UnmarshalResource([]byte(pl), s)
+				}
+				col, err := j.UnmarshalCollection([]byte("["+pl+"]"), s)
+				if err != nil || col == nil || col.Len() != 1 {
+					return nil, err
+				}
+				return col.At(0), nil
+			}
+			var r, r2 j.Resource
+			var err, err2 error
+			p := Try(func() { r, err = read("100"); r2, err2 = read(limit[n]) })
+			x.R.Add("transitions", 2)
+			sig := "C06:after-remove:" + via
+			switch {
+			case p != "":
+				x.Fail(sig+":panic", "after [%s] reading a %q payload panicked: %s", desc, n, p)
+			case !present[n]:
+				if err == nil {
+					x.Fail(sig+":removed-type-accepted", "after [%s] a payload of the removed type %q is accepted", desc, n)
+				}
+			case err != nil || r == nil:
+				x.Fail(sig+":rejected-valid", "after [%s] {type %q, n: 100} is refused: %v", desc, n, err)
+			case r.GetType().Name != n || r.Get("n") != want[n]:
+				x.Fail(sig+":other-types-definition", "after [%s] {type %q, n: 100} is stored as type %q with n = %s, the schema declares %s", desc, n, r.GetType().Name, ShowVal(r.Get("n")), kinds[n])
+			case err2 == nil && r2 != nil:
+				x.Fail(sig+":out-of-range-accepted", "after [%s] {type %q, n: %s} is accepted although the schema declares %s", desc, n, limit[n], kinds[n])
+			}
+		}
+	}
+}
+
 // c06LargeCollection: collections well beyond any small-input fast path (chunked or
 // parallel decoding): every member is stored, in order, with its own values, and
 // one out-of-range member anywhere (first, middle, last) makes the call refuse.
@@ -988,7 +1068,7 @@ func c06LargeCollection(x *mc.Exec) {
 func init() {
 	Register(&Prop{
 		ID: "C06",
-		Rule: "Engine A, all choices Full: (a) 20 integer kinds x every integer literal in [-70000,70000] (exhaustive for 8/16-bit kinds and their out-of-range neighbourhood) + +-2^k+{-2..2} (k<=70) + +-10^k+{-1,0,1} (k<=21) + fractions/exponents/-0/null/true/false/strings/arrays, each through Attr.UnmarshalToType and through UnmarshalResource (soft and struct-backed); (b) string/bool/time/bytes kinds x alphabet in 3 JSON encodings, RFC3339 offsets x precisions, near-miss invalid times, canonical and non-canonical base64 (a decoded byte string must be non-nil: the empty string is not null), wrong JSON kinds; (c) whole payloads: 3^5 attribute presence/value combinations x 5 x 4 forms of two to-one relationships x 7 to-many forms x 3 ids x 2 implementations, also read through UnmarshalPartialResource (every member present holds the same value), re-marshaled and re-read; a reduced product (2 attributes) under every iteration order of one member map inside UnmarshalResource (deviation bound 1). (d) collections of 2-3 members over 6 member variants (full, minimal, partial, empty linkage, other type, no id) through UnmarshalCollection and UnmarshalDocument, each member compared with the same object read alone; collections of 15..1001 members, valid or with one out-of-range member first / in the middle / last; (e) 16 shapes of relationship data (wrong shape for the cardinality, ill-typed identifier members) x to-one / to-many x 3 entry points: if accepted, the relationship holds exactly the ids listed. Oracle: accepted => stored value equals the math/big / own-unescaper / time.Parse / encoding/base64 reading of the literal; non-trivial = literal that is out of range, fractional, of the wrong kind, or a whole payload",
+		Rule: "Engine A, all choices Full: (a) 20 integer kinds x every integer literal in [-70000,70000] (exhaustive for 8/16-bit kinds and their out-of-range neighbourhood) + +-2^k+{-2..2} (k<=70) + +-10^k+{-1,0,1} (k<=21) + fractions/exponents/-0/null/true/false/strings/arrays, each through Attr.UnmarshalToType and through UnmarshalResource (soft and struct-backed); (b) string/bool/time/bytes kinds x alphabet in 3 JSON encodings, RFC3339 offsets x precisions, near-miss invalid times, canonical and non-canonical base64 (a decoded byte string must be non-nil: the empty string is not null), wrong JSON kinds; (c) whole payloads: 3^5 attribute presence/value combinations x 5 x 4 forms of two to-one relationships x 7 to-many forms x 3 ids x 2 implementations, also read through UnmarshalPartialResource (every member present holds the same value), re-marshaled and re-read; a reduced product (2 attributes) under every iteration order of one member map inside UnmarshalResource (deviation bound 1). (d) collections of 2-3 members over 6 member variants (full, minimal, partial, empty linkage, other type, no id) through UnmarshalCollection and UnmarshalDocument, each member compared with the same object read alone; collections of 15..1001 members, valid or with one out-of-range member first / in the middle / last; (e) 16 shapes of relationship data (wrong shape for the cardinality, ill-typed identifier members) x to-one / to-many x 3 entry points: if accepted, the relationship holds exactly the ids listed; (f) three types declaring an attribute of different widths, read after every sequence of up to 3 RemoveType / AddType / lookup steps. Oracle: accepted => stored value equals the math/big / own-unescaper / time.Parse / encoding/base64 reading of the literal; non-trivial = literal that is out of range, fractional, of the wrong kind, or a whole payload",
 		Assumptions: []string{"no completeness demand: exotic spellings may be rejected; only 'accepted => exact' is judged", "a panic counts as not accepted here (panic freedom is C05)"},
 		Harnesses: []Harness{
 			{Name: "C06/int", Body: c06Int, ShardDepth: 1},
@@ -997,6 +1077,7 @@ func init() {
 			{Name: "C06/collection", Body: c06Collection},
 			{Name: "C06/large-collection", Body: c06LargeCollection},
 			{Name: "C06/linkage", Body: c06Linkage},
+			{Name: "C06/after-remove", Body: c06AfterRemove},
 			{Name: "C06/two-schemas", Body: c06TwoSchemas},
 			{Name: "C06/resource-member-order", Body: c06ResourceOrder, Dev: func() int { return 1 }},
 		},
